@@ -295,6 +295,9 @@ func c05Run(c c05Case, o *hx.Obs) {
 			}
 		case "upsert-rs":
 			werr = b.Root().UpsertFrom(dm.NewRS(root, dm.CloneTree(newC)))
+		case "upsert-into":
+			// the same write driven from the other side: a browser on the new content pushes it into the store's node
+			werr = node.NewBrowser(mm, dm.NewRS(root, dm.CloneTree(newC))).Root().UpsertInto(store.Node())
 		case "upsert-xml":
 			var buf strings.Builder
 			doc := &dm.XNode{Name: "gm", Children: dm.TreeToXML(root, newC)}
@@ -470,7 +473,7 @@ func c05Gen(t *rapid.T) c05Case {
 
 func c05GenBase(t *rapid.T) c05Case {
 	c := c05Case{Store: rapid.SampledFrom([]string{"rs", "rs", "reflect-map"}).Draw(t, "store"),
-		Path: rapid.SampledFrom([]string{"set", "setvalue", "upsert-json", "insert-json", "update-json", "upsert-xml", "upsert-rs"}).Draw(t, "path")}
+		Path: rapid.SampledFrom([]string{"set", "setvalue", "upsert-json", "insert-json", "update-json", "upsert-xml", "upsert-rs", "upsert-into"}).Draw(t, "path")}
 	c.Base = rapid.SampledFrom([]string{"int8", "int16", "int32", "int64", "uint8", "uint16", "uint32", "uint64", "decimal64", "string", "string", "binary"}).Draw(t, "base")
 	nLevels := rapid.IntRange(1, 3).Draw(t, "levels")
 	c.LeafList = rapid.IntRange(0, 3).Draw(t, "leaflist") == 0
